@@ -20,7 +20,7 @@ def lcm(a, b):
     return a * b // math.gcd(a, b)
 
 
-HOWS = ("ctor", "nogroup", "pandas", "pandas-nogroup", "reorder", "foreign-spline")
+HOWS = ("ctor", "nogroup", "pandas", "pandas-nogroup", "reorder", "foreign-spline", "chromosome-removed", "spline-shared")
 
 
 def build_map(clsname, rows, how="ctor", rng=None):
@@ -43,9 +43,26 @@ def build_map(clsname, rows, how="ctor", rng=None):
         other = StandardGeneticMap(vrnt_chrgrp=ch, vrnt_phypos=ph, vrnt_genpos=ge * 3.0 + 0.5) if std else \
             ExtendedGeneticMap(vrnt_chrgrp=ch, vrnt_phypos=ph, vrnt_stop=ph + 1, vrnt_genpos=ge * 3.0 + 0.5)
         kw["spline"] = dict(other.spline)
+    if how == "chromosome-removed":
+        # the map once held another chromosome (label 11, which the queries ask about): all its markers were removed (remove with
+        # positions, or select with a mask) and the spline was built again -- the map now IS the map of the remaining rows
+        k = (rng or random).randrange(1, 4)
+        ch = np.concatenate([np.repeat(11, k), ch]); ph = np.concatenate([np.arange(3, 3 + 4 * k, 4), ph]); ge = np.concatenate([np.arange(k) * 0.07, ge])
     # markers of an extended map may be longer than one position (start < stop): positions refer to the marker START
     m = StandardGeneticMap(vrnt_chrgrp=ch, vrnt_phypos=ph, vrnt_genpos=ge, **kw) if std else \
         ExtendedGeneticMap(vrnt_chrgrp=ch, vrnt_phypos=ph, vrnt_stop=ph + 1 + 2 * (ph % 3), vrnt_genpos=ge, **kw)
+    if how == "chromosome-removed":
+        at = np.flatnonzero(np.asarray(m.vrnt_chrgrp) == 11)
+        if (rng or random).random() < 0.5:
+            m.remove(at)
+        else:
+            m.select(np.asarray(m.vrnt_chrgrp) != 11)
+        m.build_spline()
+    if how == "spline-shared":
+        # a second map is built on this map's spline dictionary (the optional argument; it builds its own splines at once):
+        # this map keeps answering with its own positions
+        kw2 = dict(vrnt_chrgrp=ch, vrnt_phypos=ph, vrnt_genpos=ge * 2.0 + 0.25, spline=m.spline)
+        StandardGeneticMap(**kw2) if std else ExtendedGeneticMap(vrnt_stop=ph + 1, **kw2)
     if how == "reorder":
         perm = list(range(len(rows))); (rng or random).shuffle(perm)
         m.reorder(np.array(perm))
@@ -189,7 +206,7 @@ def run(ctx):
         allc.append(map_case(len(allc) + 1, rng.choice(["StandardGeneticMap", "ExtendedGeneticMap"]), rows, qs, "ctor", rng))
         # the same rows through the other ways of building a map (no grouping at construction, data-frame import,
         # in-place reordering followed by a new spline)
-        how = HOWS[1 + len(allc) % 5]
+        how = HOWS[1 + (len(allc) // 2) % 7]
         cc = map_case(len(allc) + 1, "StandardGeneticMap" if how.startswith("pandas") else rng.choice(["StandardGeneticMap", "ExtendedGeneticMap"]),
                       rows, qs, how, rng)
         cc["how"] = how
